@@ -110,7 +110,11 @@ func HarnessC10GrpcShoot() {
 		g.Stub = grpcdynamic.NewStub(c10Chan{})
 	}
 	g.Services = map[string]desc.MethodDescriptor{"p.S.M": md}
-	am := &ammo.Ammo{Tag: "tg", Call: "p.S.M", Payload: map[string]interface{}{"f": "x"}, Metadata: map[string]string{"k": "v"}}
+	tag, wantTag := "tg", "tg"
+	if vNondetBool("untagged") {
+		tag, wantTag = "", "__EMPTY__" // an entry without a tag is reported under __EMPTY__, as the HTTP guns do
+	}
+	am := &ammo.Ammo{Tag: tag, Call: "p.S.M", Payload: map[string]interface{}{"f": "x"}, Metadata: map[string]string{"k": "v"}}
 	if unknownCall {
 		am.Call = "p.S.Nope"
 	}
@@ -160,7 +164,7 @@ func HarnessC10GrpcShoot() {
 		vCheck("G2.grpc.one.call", c10g.calls == 1)
 		vCheck("G1.grpc.sample.code.is.mapped.status", ag.last.ProtoCode() == exp)
 	}
-	vCheck("G3.grpc.tag.is.ammo.tag", ag.last.Tags() == "tg")
+	vCheck("G3.grpc.tag.is.ammo.tag", ag.last.Tags() == wantTag)
 	vObserve("proto", int64(ag.last.ProtoCode()))
 	vReach("end")
 }
